@@ -253,12 +253,15 @@ StmtEndTags == {"Ident", "Num", "Str", "Regex", "true", "false", "Null", "$", ")
 
 AfterPrintReturn(T, i) == T[i].tag \in {"Print", "Return"}
 PrintComma(T, cx, i) == T[i].tag = "," /\ cx[i].inner = "block"
+\* T[i+1] starts a statement of the block that T[i] is in
+StmtFollows(T, cx, i) ==
+  /\ cx[i].inner = "block"
+  /\ T[i+1].tag \notin InfixTags \cup {"}", ";", "Else"}
 \* the newline in gap i (between T[i] and T[i+1]) separates two statements
 Separator(T, cx, i) ==
-  /\ cx[i].inner = "block"
+  /\ StmtFollows(T, cx, i)
   /\ T[i].tag \in StmtEndTags
   /\ ~(T[i].tag = ")" /\ cx[i].closed \in {"hdr", "mhdr"})
-  /\ T[i+1].tag \notin InfixTags \cup {"}", ";", "Else"}
 
 \* The gap kinds the statement of C13 permits between T[i] and T[i+1], given
 \* whether the original text has a newline there (nl).
@@ -266,14 +269,14 @@ Separator(T, cx, i) ==
 \*  - a newline (alone, after a comment, after a CR) anywhere except directly
 \*    after print/return, after a comma of a print list, before ';'
 \*  - an original newline that separates two statements stays a newline or
-\*    becomes ';' (not after '}'); one directly after print/return/print-list
-\*    comma (where it ends the statement) stays a newline
+\*    becomes ';' (not after '}'); so does one after a bare print/return that is
+\*    followed by a statement; one after a print-list comma stays a newline
 \*  - any other original newline is between two tokens of one construct and
 \*    may be replaced by blanks
 Permitted(T, cx, nl, i) ==
   LET special == AfterPrintReturn(T, i) \/ PrintComma(T, cx, i)
       raw == IF ~nl THEN (IF special THEN WsKinds ELSE WsKinds \cup NlKinds)
-             ELSE IF special THEN NlKinds
+             ELSE IF special THEN NlKinds \cup (IF AfterPrintReturn(T, i) /\ StmtFollows(T, cx, i) THEN {"semi"} ELSE {})
              ELSE IF Separator(T, cx, i) THEN NlKinds \cup (IF T[i].tag = "}" THEN {} ELSE {"semi"})
              ELSE WsKinds \cup NlKinds
   IN (raw \ (IF NeedsSpace(T[i], T[i+1]) THEN {"none"} ELSE {}))
@@ -285,6 +288,9 @@ TrailKinds == WsKinds \cup NlKinds \cup {"cmteof"}
 \* lex-minus-in-number mis-reads): token i is a Num, gap "none", next starts with '-'
 MinusAdjacent(T, g) ==
   \E i \in 1..(Len(T) - 1) : T[i].tag = "Num" /\ g[i] = "none" /\ First(T[i+1]) = "-"
+
+\* A bare print directly followed by ';' (what deviation print-semicolon rejects)
+BarePrintSemi(T, g) == \E i \in 1..(Len(T) - 1) : T[i].tag = "Print" /\ g[i] = "semi"
 
 \* ---- the value a string literal denotes when evaluated: exactly its bytes,
 \* with \n \t \\ as the only escapes; anything else after a backslash (or a
